@@ -169,6 +169,24 @@ fn enumerate<V: Full>(b: &BaseBlob, ks: &keys::KeySet, thorough: bool) -> (Vec<F
         p.extend_from_slice(&body);
         out.push(Fault { class: "extend", label: format!("+{x:02x} at front"), paserk: pk::join(&hdr, &p), opener: b.opener.clone() });
     }
+    // one byte inserted / deleted at every offset (a parser that reads fields front to back, or re-encodes an integer
+    // field canonically, does not notice a length change in the middle)
+    for at in 0..=body.len() {
+        if thin_c && at > 96 && at % 16 != 0 && at != body.len() {
+            continue;
+        }
+        for x in [0u8, 0xff] {
+            let mut nb = body[..at].to_vec();
+            nb.push(x);
+            nb.extend_from_slice(&body[at..]);
+            out.push(Fault { class: "insert-byte", label: format!("{x:02x} inserted at offset {at}"), paserk: pk::join(&hdr, &nb), opener: b.opener.clone() });
+        }
+        if at < body.len() {
+            let mut nb = body[..at].to_vec();
+            nb.extend_from_slice(&body[at + 1..]);
+            out.push(Fault { class: "delete-byte", label: format!("byte at offset {at} deleted"), paserk: pk::join(&hdr, &nb), opener: b.opener.clone() });
+        }
+    }
     if is_pw {
         // any mutation can move other bytes into the parameter field (front truncation / extension):
         // classify every mutated blob by the parameters it now carries
@@ -240,7 +258,7 @@ fn add<V: Full>(prop: &mut Property, ctx: &Ctx) {
                 format!("{name}/{}", kind.header()),
                 n,
                 format!(
-                    "{variants} base blob(s) (minimum-cost PBKW parameters) x every single-bit flip of every byte (tag, nonce, salt, parameters, epk / RSA c, encrypted key), every value of the bytes at the field boundaries (tag bytes of point encodings), every truncation, 1-byte extensions, every single-bit flip of the wrapping key / password / recipient key, every other key of the alphabet{}; parameter flips leaving the cost budget are counted and skipped",
+                    "{variants} base blob(s) (minimum-cost PBKW parameters) x every single-bit flip of every byte (tag, nonce, salt, parameters, epk / RSA c, encrypted key), every value of the bytes at the field boundaries (tag bytes of point encodings), every truncation, 1-byte extensions, one byte (00 / ff) inserted and one byte deleted at every offset, every single-bit flip of the wrapping key / password / recipient key, every other key of the alphabet{}; parameter flips leaving the cost budget are counted and skipped",
                     if V::VER == 1 && kind == Kind::Seal && !thorough { " (quick: of the 512-byte c the first, last and every 16th byte)" } else { "" }
                 ),
                 move |idx, describe| {
